@@ -1,0 +1,67 @@
+//go:build verif
+
+package filecache
+
+import (
+	"fmt"
+	"io"
+	"os"
+	"strconv"
+	"strings"
+)
+
+// Verification hook (build tag verif only): named crash points inside fileCache.Add.
+//
+// WAZERO_VERIF_CRASH=<point>[:N] terminates the process with os.Exit(137) (as if killed) when the
+// named point is reached: after-createtemp, mid-copy:N (after exactly N bytes of the entry were
+// handed to the temp file), after-copy, after-sync, after-close, after-rename.
+// WAZERO_VERIF_CRASH_TRACE=<file> appends the name of every point passed (one per line), so that
+// a checker can compare the real order of the steps with its model.
+// Without these variables the functions below do nothing.
+
+func verifCrashPoint(point string) {
+	if tr := os.Getenv("WAZERO_VERIF_CRASH_TRACE"); tr != "" {
+		if f, err := os.OpenFile(tr, os.O_APPEND|os.O_CREATE|os.O_WRONLY, 0o600); err == nil {
+			fmt.Fprintln(f, point)
+			f.Close()
+		}
+	}
+	if sel := os.Getenv("WAZERO_VERIF_CRASH"); sel != "" && sel == point {
+		os.Exit(137)
+	}
+}
+
+func verifCrashReader(content io.Reader) io.Reader {
+	sel := os.Getenv("WAZERO_VERIF_CRASH")
+	if !strings.HasPrefix(sel, "mid-copy:") {
+		return content
+	}
+	n, err := strconv.ParseInt(sel[len("mid-copy:"):], 10, 64)
+	if err != nil || n < 0 {
+		return content
+	}
+	return &verifCrashingReader{r: content, left: n}
+}
+
+// verifCrashingReader delivers exactly `left` bytes and then terminates the process on the next Read,
+// i.e. after io.Copy has written those bytes to the destination.
+type verifCrashingReader struct {
+	r    io.Reader
+	left int64
+}
+
+func (c *verifCrashingReader) Read(p []byte) (int, error) {
+	if c.left <= 0 {
+		os.Exit(137)
+	}
+	if int64(len(p)) > c.left {
+		p = p[:c.left]
+	}
+	n, err := c.r.Read(p)
+	c.left -= int64(n)
+	if err != nil && c.left > 0 {
+		// the entry is shorter than N: die at its end, still before Sync.
+		os.Exit(137)
+	}
+	return n, err
+}
